@@ -81,6 +81,7 @@ theorem C17_no_overflow (tip sec step : Nat) (h : step + 2 * LEN ≤ U64) :
 
 theorem C17_overflow_note : txsM 100 0 (U64 - 1) = .panic := by decide
 
+/- VACUITY AUDIT: no longer an obligation of the check. congruence of a `def` (subst; rfl). Replaced by: - (K: the function is compared with the code on every case). -/
 /-- purity: the derived entity is a function of (config, discriminant, time point) only —
 signer and aggregator evaluate the same `def`; stated as congruence. -/
 theorem C17_pure (c1 c2 : Config) (d : Nat) (tp1 tp2 : TimePoint)
